@@ -354,7 +354,7 @@ func runC20Val(s *sim) {
 		st.checkLog(s)
 		st.mu.Unlock()
 	}
-	for round := 0; round < 8; round++ {
+	for round := 0; round < 8192 && len(s.parkedGates()) > 0; round++ {
 		for _, g := range s.parkedGates() {
 			s.release(g, 0)
 			s.settle()
@@ -519,7 +519,7 @@ func runC20Node(s *sim) {
 		w.restartNode(opt())
 	}
 	w.atEnd = append(w.atEnd, func() {
-		for round := 0; round < 16; round++ {
+		for round := 0; round < 8192 && len(s.parkedGates()) > 0; round++ {
 			for _, g := range s.parkedGates() {
 				s.release(g, 0)
 				s.settle()
